@@ -35,6 +35,9 @@ type R struct {
 	K     int    // probe signature: the rule binds after K admissions (0 = inert / never binds)
 	Lib   interface{}
 	Mk    func() interface{} // builds a fresh, equal library object (identical reload)
+	// Alt, when set, returns the same rule (same id) with exactly one behaviour-relevant field other than the
+	// binding threshold changed (and the probe signature that follows from it)
+	Alt func() *R
 }
 
 type probeRes struct {
@@ -51,6 +54,8 @@ type module struct {
 	single    bool // at most one rule per resource (outlier)
 	unordered bool
 	gen       func(rng *rand.Rand, res string, id string, kind int) *R
+	// setK patches the field that carries the probe signature of a binding rule (its threshold) in a library object
+	setK func(lib interface{}, k int)
 	kinds     int // number of invalid kinds (kind 0 = valid binding, 1 = valid inert, >=2 invalid classes)
 	loadAll   func(rs []*R, fresh bool) (bool, error)
 	loadRes   func(res string, rs []*R, fresh bool) (bool, error)
@@ -71,6 +76,7 @@ func nid(p string) string { uid++; return fmt.Sprintf("%s%d", p, uid) }
 
 func flowModule() *module {
 	m := &module{name: "flow", perRes: true, kinds: 11}
+	m.setK = func(lib interface{}, k int) { lib.(*flow.Rule).Threshold = float64(k) }
 	m.gen = func(rng *rand.Rand, res, id string, kind int) *R {
 		r := &R{ID: id, Res: res, Valid: true}
 		var mk0 func() *flow.Rule
@@ -218,6 +224,7 @@ func flowModule() *module {
 
 func isolationModule() *module {
 	m := &module{name: "isolation", perRes: true, kinds: 5}
+	m.setK = func(lib interface{}, k int) { lib.(*isolation.Rule).Threshold = uint32(k) }
 	m.gen = func(rng *rand.Rand, res, id string, kind int) *R {
 		r := &R{ID: id, Res: res, Valid: true}
 		k := 1 + rng.Intn(8)
@@ -302,6 +309,7 @@ func isolationModule() *module {
 
 func hotspotModule() *module {
 	m := &module{name: "hotspot", perRes: true, kinds: 10}
+	m.setK = func(lib interface{}, k int) { lib.(*hotspot.Rule).Threshold = int64(k) }
 	m.gen = func(rng *rand.Rand, res, id string, kind int) *R {
 		r := &R{ID: id, Res: res, Valid: true}
 		k := 1 + rng.Intn(8)
@@ -450,6 +458,7 @@ func cbProbe(res string, opts ...sentinel.EntryOption) probeRes {
 	}
 	e.Exit()
 	clk.AddMs(20000)
+	clk.SetMs(clk.Ms() - clk.Ms()%1000 + 1001) // the 12 x 50 ms of the probe stay inside one 1000 ms statistic window
 	for p.N < probeCap {
 		e, b := sentinel.Entry(res, opts...)
 		if b != nil {
@@ -459,6 +468,7 @@ func cbProbe(res string, opts ...sentinel.EntryOption) probeRes {
 			}
 			return p
 		}
+		clk.AddMs(50)
 		sentinel.TraceError(e, errors.New("probe error"))
 		e.Exit()
 		p.N++
@@ -468,6 +478,13 @@ func cbProbe(res string, opts ...sentinel.EntryOption) probeRes {
 
 func cbModule() *module {
 	m := &module{name: "circuitbreaker", perRes: true, kinds: 8}
+	m.setK = func(lib interface{}, k int) {
+		if x := lib.(*cb.Rule); x.Strategy == cb.ErrorCount {
+			x.Threshold = float64(k)
+		} else {
+			x.MinRequestAmount = uint64(k)
+		}
+	}
 	m.gen = func(rng *rand.Rand, res, id string, kind int) *R {
 		r := &R{ID: id, Res: res, Valid: true}
 		k := 2 + rng.Intn(7)
@@ -476,6 +493,26 @@ func cbModule() *module {
 		case 0:
 			r.K = k
 			mk = func() *cb.Rule { return cbRule(id, res, k) }
+			if rng.Intn(3) == 0 {
+				// slow-request breaker: every probe request takes 50 ms; with a limit of 20 ms all of them are slow and
+				// the breaker trips at the k-th completion, with a limit of 100 ms none is and the rule is inert
+				var slow func(limit uint64) *R
+				slow = func(limit uint64) *R {
+					x := &R{ID: id, Res: res, Valid: true}
+					if limit < 50 {
+						x.K = k
+					}
+					x.Mk = func() interface{} {
+						y := cbRule(id, res, k)
+						y.Strategy, y.Threshold, y.MinRequestAmount, y.MaxAllowedRtMs = cb.SlowRequestRatio, 1, uint64(k), limit
+						return y
+					}
+					x.Lib = x.Mk()
+					x.Alt = func() *R { return slow(120 - limit) }
+					return x
+				}
+				return slow(uint64(vk.PickI(rng, 20, 20, 100)))
+			}
 		case 1:
 			mk = func() *cb.Rule {
 				x := cbRule(id, res, k)
@@ -558,6 +595,7 @@ const sysRes = "<system>"
 
 func systemModule() *module {
 	m := &module{name: "system", perRes: false, kinds: 6}
+	m.setK = func(lib interface{}, k int) { lib.(*system.Rule).TriggerCount = float64(k) }
 	m.gen = func(rng *rand.Rand, res, id string, kind int) *R {
 		r := &R{ID: id, Res: sysRes, Valid: true}
 		k := 2 + rng.Intn(7)
@@ -653,6 +691,7 @@ var outlierChain *base.SlotChain
 
 func outlierModule() *module {
 	m := &module{name: "outlier", perRes: true, single: true, kinds: 7}
+	m.setK = func(lib interface{}, k int) { lib.(*outlier.Rule).Rule.Threshold = float64(k) }
 	m.gen = func(rng *rand.Rand, res, id string, kind int) *R {
 		r := &R{ID: id, Res: res, Valid: true}
 		k := 2 + rng.Intn(7)
@@ -947,6 +986,68 @@ func runCase(idx int, m *module, rng *rand.Rand) *caseDesc {
 			}
 			applyWhole(nil)
 			last = nil
+		case opk == 9 && last != nil && last.err == nil && rng.Intn(2) == 0:
+			// the latest load again with exactly one field of one valid rule changed (same id, fresh objects)
+			var cand []int
+			for j, r := range last.rs {
+				if r.Valid && (r.Alt != nil || (r.K > 0 && m.setK != nil)) {
+					cand = append(cand, j)
+				}
+			}
+			if len(cand) == 0 {
+				st.Op = "noop"
+				c.Steps = append(c.Steps, st)
+				break
+			}
+			j := cand[rng.Intn(len(cand))]
+			old := last.rs[j]
+			var nr *R
+			if old.Alt != nil && (old.K == 0 || m.setK == nil || rng.Intn(2) == 0) {
+				nr = old.Alt()
+			} else {
+				nk := 1 + (old.K+rng.Intn(6))%8
+				if m.name == "system" || m.name == "circuitbreaker" || m.name == "outlier" {
+					nk++
+				}
+				nr = &R{ID: old.ID, Res: old.Res, Valid: true, K: nk, Alt: nil}
+				nr.Mk = func() interface{} { x := old.Mk(); m.setK(x, nk); return x }
+				nr.Lib = nr.Mk()
+			}
+			rs = append([]*R(nil), last.rs...)
+			rs[j] = nr
+			st.Op = "ReloadWithOneFieldEdited"
+			st.Res = last.res
+			st.List = descR(rs)
+			c.Steps = append(c.Steps, st)
+			tag = hasNil(rs)
+			whole, lres := last.whole, last.res
+			panicked = run.Guard("C13/"+m.name+"/load-panicked"+tag, c, func() {
+				if whole {
+					changed, err = m.loadAll(rs, true)
+				} else {
+					changed, err = m.loadRes(lres, rs, true)
+				}
+			})
+			if panicked {
+				return c
+			}
+			if whole {
+				applyWhole(rs)
+			} else {
+				var vs []*R
+				for _, r := range rs {
+					if r.Valid {
+						vs = append(vs, r)
+					}
+				}
+				if len(vs) == 0 {
+					delete(model, lres)
+				} else {
+					model[lres] = vs
+				}
+			}
+			last = &lastLoad{whole, lres, rs, err}
+			run.Count("one_field_edits", 1)
 		default:
 			if last == nil {
 				st.Op = "noop"
